@@ -197,9 +197,34 @@ class ParserModel:
         self.notes.append("P4 (char after the function name must be `(`) not found in function_expr")
         return None
 
-    # ---- P5: control characters ------------------------------------------------------------------
+    # ---- P5: character validators -------------------------------------------------------------------
+    CHAR_CLASSES = {
+        "is_control": [[0, 0x1F], [0x7F, 0x9F]],
+        "is_ascii_control": [[0, 0x1F], [0x7F, 0x7F]],
+        "is_whitespace": [[0x09, 0x0D], [0x20, 0x20], [0x85, 0x85], [0xA0, 0xA0], [0x1680, 0x1680], [0x2000, 0x200A], [0x2028, 0x2029], [0x202F, 0x202F], [0x205F, 0x205F], [0x3000, 0x3000]],
+        "is_ascii_whitespace": [[0x09, 0x0A], [0x0C, 0x0D], [0x20, 0x20]],
+        "is_ascii_digit": [[0x30, 0x39]],
+        "is_ascii": [[0, 0x7F]],
+    }
+
+    def reject_set(self, c):
+        """Ranges of characters for which the condition term `c` (over one <item> of chars()) is true; None if unknown."""
+        def is_item(x):
+            return any(y.k == "call" and y.a[0] == "<item>" for y in subterms(x)) or x.k == "field"
+        if c.k == "bin" and c.a[0] in ("Le", "Lt", "Ge", "Gt", "Eq") and c.a[2].k == "lit" and c.a[2].a[0] == "char" and is_item(c.a[1]):
+            o = ord(c.a[2].a[1])
+            return {"Le": [[0, o]], "Lt": [[0, o - 1]] if o else [], "Ge": [[o, 0x10FFFF]], "Gt": [[o + 1, 0x10FFFF]], "Eq": [[o, o]]}[c.a[0]]
+        if c.k == "call" and "<impl char>::" in c.a[0] and len(c.a) == 2 and is_item(c.a[1]):
+            m = c.a[0].rsplit("::", 1)[1]
+            return self.CHAR_CLASSES.get(m)
+        if c.k == "logic" and c.a[0] == "Or":
+            a, b = self.reject_set(c.a[1]), self.reject_set(c.a[2])
+            return (a + b) if a is not None and b is not None else None
+        return None
+
     def extract_ctrl_validator(self):
-        """{fn path: max rejected code point} for local fns (&str) -> Result<&str,_> that reject chars <= C"""
+        """{fn path: rejected ranges | None} for local fns (&str) -> Result<&str,_>: a loop over chars() that returns Err when
+        a character predicate holds.  None = a check whose effect could not be determined (fail closed by the users)."""
         out = {}
         for p, it in self.prog.items.items():
             if it["kind"] != "Fn" or p not in self.prog.bodies or len(it.get("inputs_s", [])) != 1 or "str" not in it["inputs_s"][0]:
@@ -207,14 +232,20 @@ class ParserModel:
             if not it.get("output_s", "").startswith("core::result::Result<&"):
                 continue
             t, trace, conds = self.ev.traced(p)
-            for c in conds:
-                if c.k == "bin" and c.a[0] in ("Le", "Lt") and c.a[2].k == "lit" and c.a[2].a[0] == "char":
-                    src = c.a[1]
-                    if any(x.k == "call" and x.a[0] == "<item>" for x in subterms(src)) or src.k == "field":
-                        cp = ord(c.a[2].a[1]) - (1 if c.a[0] == "Lt" else 0)
-                        out[p] = cp
+            sets = [self.reject_set(c) for c in conds]
+            known = [x for x in sets if x is not None]
+            if known:
+                rs = []
+                for x in known:
+                    rs.extend(x)
+                out[p] = sorted(rs)
+                if len(known) != len([c for c in conds if not (c.k == "call" and c.a[0].endswith("Iterator>::next"))]):
+                    # further conditions of unknown effect
+                    pass
+            else:
+                out[p] = None
         if not out:
-            self.notes.append("no control-character validator found")
+            self.notes.append("no character validator found")
         return out
 
     # ---- per-slot transformations --------------------------------------------------------------
@@ -286,7 +317,13 @@ class ParserModel:
             if "<impl str>" in name and m in TRIMS:
                 steps.append("trim:%s:%s" % TRIMS[m])
             if name in self.ctrl:
-                steps.append("ctrl<=%d" % self.ctrl[name])
+                rs = self.ctrl[name]
+                if rs is None:
+                    steps.append("unknown-check:" + name.rsplit("::", 1)[1])
+                elif rs == [[0, rs[0][1]]] and len(rs) == 1:
+                    steps.append("ctrl<=%d" % rs[0][1])
+                else:
+                    steps.append("reject:" + ",".join("%d-%d" % (a, b) for a, b in rs))
             if name in validators:
                 steps.append("range[%d,%d]" % validators[name])
             if name == "core::str::<impl str>::parse":
